@@ -263,7 +263,7 @@ class _TCPPooling:
 
     def _dispatch_incoming(self, connection, msg):
         if msg.code == 0:
-            pass
+            return
 
         if msg.code.is_response():
             self._tokenmanager.process_response(msg)
